@@ -43,6 +43,50 @@ EXTRA = [
 ]
 
 
+def T(k, **kw):
+    d = {"k": k}
+    d.update(kw)
+    return d
+
+
+_ITER_ANY = T("fn", ps=[], r=T("tuple", es=[T("bool"), T("any")]))
+_ITER_INT = T("fn", ps=[], r=T("tuple", es=[T("bool"), T("int")]))
+_ITER_FLOAT = T("fn", ps=[], r=T("tuple", es=[T("bool"), T("float")]))
+_V = lambda n: {"k": "var", "n": n}
+_EMPTY_IT = {"k": "iter", "e": {"k": "arr", "es": []}}
+
+
+def _union_operand(idx, body):
+    """f := (it: ()->(bool, any) | int) -> any { <body using it> }; the operand is only partly an iterator: the
+    checker must give the same verdict every time it is asked"""
+    return {"id": "det-part-iterator-%d" % idx, "prog": [
+        {"k": "fndecl", "n": "f", "ps": [{"n": "it", "ty": T("multi", ms=[_ITER_ANY, T("int")])}], "r": T("any"), "body": body},
+        {"k": "call", "f": _V("f"), "args": [I(1)]}]}
+
+
+_ID = {"k": "fn", "ps": [{"n": "a", "ty": T("any")}], "r": T("any"), "body": [{"k": "ret", "e": _V("a")}]}
+_TRUE = {"k": "fn", "ps": [{"n": "a", "ty": T("any")}], "r": T("bool"), "body": [{"k": "ret", "e": lit({"k": "bool", "v": True})}]}
+_ADD = {"k": "fn", "ps": [{"n": "a", "ty": T("any")}, {"n": "b", "ty": T("any")}], "r": T("any"), "body": [{"k": "ret", "e": _V("b")}]}
+EXTRA += [
+    # reducers over an iterator whose element type is `!`: every accepted element type fits, the choice must not
+    # depend on a set's iteration order (process-wide state: the outcome must be the same in every process)
+    {"id": "det-sum-of-nothing", "prog": [{"k": "tup", "es": [{"k": "red", "op": "$+", "ek": "int", "it": _EMPTY_IT}]}]},
+    {"id": "det-sum-of-nothing-named", "prog": [{"k": "set", "n": "e", "e": {"k": "arr", "es": []}},
+                                               {"k": "tup", "es": [{"k": "red", "op": "$+", "ek": "int", "it": {"k": "iter", "e": _V("e")}},
+                                                                   {"k": "red", "op": "$*", "ek": "int", "it": {"k": "iter", "e": _V("e")}}]}]},
+    {"id": "det-sum-union-of-iterators", "prog": [
+        {"k": "fndecl", "n": "f", "ps": [{"n": "it", "ty": T("multi", ms=[_ITER_INT, _ITER_FLOAT])}], "r": T("multi", ms=[T("int"), T("float")]),
+         "body": [{"k": "ret", "e": {"k": "red", "op": "$+", "ek": "dyn", "it": _V("it")}}]},
+        {"k": "tup", "es": [{"k": "call", "f": _V("f"), "args": [_EMPTY_IT]}]}]},
+    _union_operand(1, [{"k": "for", "n": "x", "e": _V("it"), "b": {"k": "block", "body": []}}, {"k": "ret", "e": I(1)}]),
+    _union_operand(2, [{"k": "ret", "e": {"k": "reduce", "it": _V("it"), "init": I(0), "f": _ADD}}]),
+    _union_operand(3, [{"k": "ret", "e": {"k": "collect", "it": {"k": "map", "it": _V("it"), "f": _ID}}}]),
+    _union_operand(4, [{"k": "ret", "e": {"k": "collect", "it": {"k": "filter", "it": _V("it"), "f": _TRUE}}}]),
+    _union_operand(5, [{"k": "ret", "e": {"k": "part", "it": _V("it"), "f": _TRUE}}]),
+    _union_operand(6, [{"k": "ret", "e": {"k": "collect", "it": {"k": "tfilter", "it": _V("it"), "ty": T("int")}}}]),
+]
+
+
 def differs_only_in_exhausted(a, b):
     """True when two outcomes differ only in the value carried by exhausted iterator results (false, v)."""
     def walk(x, y):
@@ -98,6 +142,13 @@ def run(tier):
         # every process meets the programs in another order: an outcome must not depend on the work done before
         for proc, order in enumerate(("fwd", "rev", "shuf")):
             rc, txt = C.run_vh(["det", cases, str(k), "p%d-" % proc, order], timeout=3000)
+            f.write(txt)
+        # the hand-written cases once more in further fresh processes: state that is fixed per process (a lazily
+        # built set, a cache) shows only between processes
+        extra_cases = os.path.join(work, "extra_cases.ndjson")
+        C.write_ndjson(extra_cases, EXTRA)
+        for proc in range(3, 3 + (6 if tier == "quick" else 16)):
+            rc, txt = C.run_vh(["det", extra_cases, "2", "p%d-" % proc, "fwd"], timeout=600)
             f.write(txt)
     records = C.read_ndjson(recs)
     # TLC does not need the structured copy
